@@ -26,8 +26,9 @@ TRUSTED = [
     "of live accountants (C16 proves the scope discipline); the estimator bodies between check and spend are abstracted "
     "to 'n mechanism invocations + sub-queries on throw-away accountants' (the harness observes the real ones)",
     "whether epsilon 'fits the remaining budget' is the accountant's own `check(epsilon, 0)` (C04/C05/C18 are about it)",
-    "sklearn's clone() of the forest's base estimator deep-copies the constructor-time default accountant into every "
-    "tree; the copies are not live accountants of the caller",
+    "RandomForestClassifier: the trees are fitted with a throw-away unlimited accountant of their own (since c39fc2b; "
+    "before, sklearn's clone() deep-copied the constructor-time DEFAULT accountant into every tree, so an exhausted "
+    "default refused a forest whose own accountant had budget — kept as regression scenario FOREST_WITNESS)",
 ]
 UNPROVED = [
     "multi_cell_charge is proved over the reals (sum of size spends of eps/size is eps; the accountant total is monotone "
@@ -36,7 +37,7 @@ UNPROVED = [
     "which is validated on exactly fitting budgets, not proved for doubles",
     "multi-quantile over an axis: only the decisive step is proved (multi_quantile_inner_check, over the reals: the "
     "per-quantile check(eps/m) is implied by the up-front check(eps)); the composition through runAll is not; in doubles "
-    "that step FAILS by one rounding at exactly fitting budgets (finding C09:quantile/percentile:mechanism-before-refusal)",
+    "that step FAILS by one rounding at exactly fitting budgets (finding C09:quantile|percentile:nested-check-refuses-fitting-sequence)",
     "the estimators' bodies are not modelled statement by statement here (C08 does the plans): model_charge_once is about "
     "the generic fit shape check-first / sub-queries on throw-away accountants / spend-last, tied by observing totals of all "
     "live accountants and the interposed mechanism invocations around the real fit",
@@ -68,6 +69,9 @@ def gen_scenario(r, max_cells, entry=None):
     sc["decoy"] = r.choice(["unlimited", "exhausted", "finite"])
     sc["prior"] = [r.choice([0.1, 0.2, r.loguniform(1e-3, 2.0)]) for _ in range(r.choice([0, 0, 1, 2, 5]))]
     sc["seed"] = r.randint(0, 10 ** 6)
+    # a nested `with other:` block entered and left between installing the target as default and the call: the default
+    # in force afterwards must again be the target (also when the target has no recorded spend yet, i.e. is "falsy")
+    sc["nested_with"] = sc["mode"] != "explicit" and r.chance(0.4)
     if entry in MODELS:
         sc["kind"] = "fit"
         sc["n_features"] = r.randint(1, 5)
@@ -278,10 +282,16 @@ def run_scenario(sc):
                         model = mk({"accountant": target})
                     elif mode == "with":
                         with target:
+                            if sc.get("nested_with"):
+                                with decoy2:
+                                    pass
                             model = mk({})
                         dflt_construct = 0
                     else:
                         target.set_default()
+                        if sc.get("nested_with"):
+                            with decoy2:
+                                pass
                         model = mk({})
                         dflt_construct = 0
                         dflt_fit = 0
@@ -303,10 +313,16 @@ def run_scenario(sc):
                             elif mode == "with":
                                 dflt_construct = dflt_fit = 0
                                 with target:
+                                    if sc.get("nested_with"):
+                                        with decoy2:
+                                            pass
                                     tool_call(sc, {})()
                             else:
                                 dflt_construct = dflt_fit = 0
                                 target.set_default()
+                                if sc.get("nested_with"):
+                                    with decoy2:
+                                        pass
                                 tool_call(sc, {})()
                         except Exception as e:  # noqa
                             exc = e
@@ -325,6 +341,18 @@ def run_scenario(sc):
         BA._default = old_default
 
 
+def whole_sequence_fits(sc, snap):
+    """would the complete sequence of per-cell spends of a multi-quantile query fit the target's ceiling?
+    (the cell epsilon exactly as the code charges it: (eps / len(quant)) / n_cells)"""
+    spent, slack, ceil_e, ceil_d = snap
+    m = sc["quants"]
+    n = sc["cells"]
+    cell = sc["eps"] / m / n
+    acc = BA(float("inf"), ceil_d if slack else 1.0, slack) if slack else BA(float("inf"), 1.0)
+    t = acc.total(spent_budget=[(float(e), float(d)) for e, d in spent] + [(cell, 0)] * (m * n))
+    return bool(t[0] <= ceil_e and t[1] <= ceil_d)
+
+
 def verdict(sc, res):
     """(signature, what) or None"""
     entry = sc["entry"]
@@ -335,7 +363,8 @@ def verdict(sc, res):
     tb, ta = before[0][0], after[0][0]
     appended = ta[len(tb):] if ta[:len(tb)] == tb else None
     desc = f"{entry} ({sc['kind']}, {sc.get('layout', '')} cells={sc.get('cells', 1)} quants={sc.get('quants', 1)}) eps={eps!r} " \
-           f"state={sc['state']} mode={sc['mode']} decoy-default={sc['decoy']} prior={sc['prior']}"
+           f"state={sc['state']} mode={sc['mode']}{'+nested-with-block' if sc.get('nested_with') else ''} " \
+           f"decoy-default={sc['decoy']} prior={sc['prior']}"
     if res["kind"].startswith("other"):
         return (f"C09:{entry}:unexpected-exception", f"{desc}: raised {res['exc']}")
     if appended is None or before[0][1:] != after[0][1:]:
@@ -363,6 +392,12 @@ def verdict(sc, res):
         return None
     # budget error
     if res["calls"] > 0:
+        if sc["kind"] == "multiq" and sc.get("layout") not in ("scalar", "axis-scalar") and whole_sequence_fits(sc, before[0]):
+            # every cell spend of the query fits (the up-front exact check was right), yet a later quantile's own
+            # check(eps / len(quant), 0) refuses: one spend of eps/m against n spends of eps/m/n, by rounding
+            return (f"C09:{entry}:nested-check-refuses-fitting-sequence",
+                    f"{desc}: BudgetError after {res['calls']} mechanism invocation(s) although all {n_spends(sc)} cell spends fit; "
+                    f"target charged {len(appended)} x {appended[0] if appended else None}")
         return (f"C09:{entry}:mechanism-before-refusal", f"{desc}: BudgetError after {res['calls']} mechanism invocation(s); "
                 f"target charged {appended[:4]}")
     if appended:
@@ -444,7 +479,7 @@ def sum_eps(snap):
 
 def key_of(sc, res):
     return (sc["entry"], sc["kind"], sc.get("layout"), sc.get("cells"), sc.get("quants"), sc["state"], sc["mode"], sc["decoy"],
-            res["kind"], len(sc["prior"]) > 0)
+            res["kind"], len(sc["prior"]) > 0, bool(sc.get("nested_with")))
 
 
 FOREST_WITNESS = {"entry": "RandomForestClassifier", "kind": "fit", "eps": 1.0, "state": "more", "mode": "explicit",
@@ -468,15 +503,15 @@ def witness_nested(entry):
               "keepdims": False, "cells": 7}
         res = run_scenario(sc)
         v = res["verdict"]
-        if v and v[0] == f"C09:{entry}:mechanism-before-refusal":
+        if v and v[0] == f"C09:{entry}:nested-check-refuses-fitting-sequence":
             return True, v[1]
         return False, "witness no longer fails" + (f" with this signature (got {v[0]})" if v else "")
     return run
 
 
 WITNESSES = {"C09:RandomForestClassifier:refused-although-fits": witness_forest,
-             "C09:quantile:mechanism-before-refusal": witness_nested("quantile"),
-             "C09:percentile:mechanism-before-refusal": witness_nested("percentile")}
+             "C09:quantile:nested-check-refuses-fitting-sequence": witness_nested("quantile"),
+             "C09:percentile:nested-check-refuses-fitting-sequence": witness_nested("percentile")}
 
 
 def check(ctx):
@@ -489,6 +524,22 @@ def check(ctx):
     scs = [dict(FOREST_WITNESS)]
     for i in range(n):
         scs.append(gen_scenario(r, max_cells, entries[i % len(entries)] if i % 2 == 0 else None))
+    # stratum: lists of quantiles over an axis against an EXACTLY fitting budget (where an up-front check that is not
+    # computed from the very spends that will be recorded shows as a part-way refusal)
+    r2 = ctx.fork("multiq-exact")
+    for i in range(ctx.budget(160, 1200) if not ctx.searching else ctx.budget(60, 300)):
+        sc = gen_scenario(r2, 13, r2.choice(["quantile", "percentile"]))
+        sc["quants"] = r2.randint(2, 5)
+        sc["nan_data"] = False
+        cells = r2.choice([2, 3, 5, 7, 9, 11, 13])
+        sc["layout"], sc["shape"], sc["axis"], sc["keepdims"], sc["cells"] = "axis0", [3, cells], 0, r2.chance(0.2), cells
+        if sc["keepdims"]:
+            sc["layout"] = "keepdims"
+        sc["kind"] = "multiq"
+        sc["state"] = r2.choice(["equal", "equal", "equal", "slack-equal"])
+        sc["eps"] = r2.choice([2.5, 2.9, 4.5, 5.0, 0.3, 0.7, 1.0, r2.loguniform(0.05, 10.0), round(r2.uniform(0.1, 9.9), 1)])
+        sc["prior"] = [] if r2.chance(0.6) else sc["prior"]
+        scs.append(sc)
     lines, keep = [], []
     for sc in scs:
         res = run_scenario(sc)
